@@ -1232,7 +1232,7 @@ def main(ck):
     audit_n = 0
     if ok:
         try:
-            n_model, lines = run_models(ck, face_jobs, grid_jobs, st, 22000 if ck.tier == "quick" else 600000, dim3)
+            n_model, lines = run_models(ck, face_jobs, grid_jobs, st, 22000 if ck.tier == "quick" else 400000, dim3)
             # extraction audit: the same model evaluated by the kernel on a few single-triangle cases
             small = [l for l in lines if l.startswith("(1 4 0 () ") and l.count("(") <= 7][:4]
             if small:
